@@ -179,7 +179,10 @@ def monitor(t, V):
             g, f = g0 - g1, f0 - f1
             tot_g += g
             tot_f += f
-            tolS = 16 * EPS * (abs(g0) + abs(f0))
+            # a few ulps of the SUPPLY: what is left of a pool is a difference of large values, and the pool a
+            # later species sees may already carry the rounding residue (e.g. -9e-13) of an earlier species'
+            # consumption, so the scale is this month's delivery, not the (possibly tiny) pool at call time
+            tolS = 16 * EPS * (abs(g0) + abs(f0) + abs(float(grass_in[m])) + abs(float(feed_in[m])))
             tolE = 1e-9 * R + tolS
             delivered = engine_h.EFF_GRASS * g + engine_h.EFF_FEED * f
             met = delivered >= R - tolE
